@@ -64,10 +64,10 @@ static uint64_t verif_f64_bits(double f) { union { double f; uint64_t u; } x; x.
   __CPROVER_ensures((fs)->len == __CPROVER_old((fs)->len) + 8) \
   __CPROVER_ensures(LE32_AT((fs)->buf, (fs)->len - 8) == GOLDEN_MAGIC_HEADER && LE32_AT((fs)->buf, (fs)->len - 4) == (hdr)) \
   __CPROVER_ensures(__CPROVER_return_value == (fs)) \
-  __CPROVER_assigns((fs)->len, __CPROVER_object_upto((fs)->buf, (fs)->cap))
+  __CPROVER_assigns((fs)->len, __CPROVER_object_from((fs)->buf + (fs)->len))
 #define CONTRACT_write_io_footer(fs, ftr) \
   WB_PRE(fs, 8) \
   __CPROVER_ensures((fs)->len == __CPROVER_old((fs)->len) + 8) \
   __CPROVER_ensures(LE32_AT((fs)->buf, (fs)->len - 8) == GOLDEN_MAGIC_FOOTER && LE32_AT((fs)->buf, (fs)->len - 4) == (uint32_t)((ftr) + GOLDEN_FOOTER_OFFSET)) \
   __CPROVER_ensures(__CPROVER_return_value == (fs)) \
-  __CPROVER_assigns((fs)->len, __CPROVER_object_upto((fs)->buf, (fs)->cap))
+  __CPROVER_assigns((fs)->len, __CPROVER_object_from((fs)->buf + (fs)->len))
